@@ -678,6 +678,13 @@ class Engine:
         return self.call_mir(self.func(cands[0]), [], frame.depth + 1)
 
     def _const_item(self, frame, text):
+        if text.startswith('ZeroSized: '):
+            ty = text[len('ZeroSized: '):]
+            if ty.startswith('{closure@'):
+                return Closure(ty, ())
+            m = re.match(r'^fn\(.*\) (?:-> .* )?\{(.*)\}$', ty)
+            if m:
+                return FnItem(m.group(1))
         t = norm_type(text)
         m = re.match(r'^(u8|u16|u32|u64|usize|i8|i16|i32|i64|isize)::(MAX|MIN)$', t)
         if m:
